@@ -380,6 +380,15 @@ def r6(ctx):
     relabel(ctx, "C05.R6", c11.r6)
 
 
+def _r6_parts():
+    from .shared import relabel
+    from . import c11
+    from .shared import relabel_parts
+    return relabel_parts("C05.R6", c11.r6)
+
+
+r6.parts = _r6_parts
+
 
 def f1(ctx):
     """generic same-name parameter forwarding over this property's modules (see shared.generic_forwarding)."""
@@ -393,6 +402,16 @@ def s1(ctx):
     from .shared import relabel
     from . import c18
     relabel(ctx, "C05.S1", c18.r1)
+
+
+def _s1_parts():
+    from .shared import relabel
+    from . import c18
+    from .shared import relabel_parts
+    return relabel_parts("C05.S1", c18.r1)
+
+
+s1.parts = _s1_parts
 
 
 RULES = [("C05.R1", r1), ("C05.R2", r2), ("C05.R3", r3), ("C05.R4", r4), ("C05.R5", r5), ("C05.R6", r6), ("C05.F1", f1), ("C05.S1", s1)]
